@@ -83,16 +83,16 @@ def post_dpss(N, NW, k, result):
     V = tridiag_vectors(N, W32, kk)
     sgn = np.sign(np.sum(V * tapers, axis=0))
     sgn[sgn == 0] = 1
-    c.compare('dpss:columns-are-leading-eigenvectors(independent-solver)', tapers, V * sgn, 1e-5, feats,
+    c.compare('dpss:columns-are-leading-eigenvectors(independent-solver)', tapers, V * sgn, 1e-4, feats,
               scale=float(np.max(np.abs(V))), detail=det)
     for i in range(kk):
         v = tapers[:, i]
         m = float(np.max(np.abs(v)))
         if i % 2 == 0:
-            c.compare('dpss:even-index-symmetric', v, v[::-1], 1e-5, feats, scale=m, detail=dict(det, index=i))
+            c.compare('dpss:even-index-symmetric', v, v[::-1], 1e-4, feats, scale=m, detail=dict(det, index=i))
             c.require('dpss:even-index-positive-sum', bool(np.sum(v) > 0), dict(det, index=i, sum=float(np.sum(v))), feats)
         else:
-            c.compare('dpss:odd-index-antisymmetric', v, -v[::-1], 1e-5, feats, scale=m, detail=dict(det, index=i))
+            c.compare('dpss:odd-index-antisymmetric', v, -v[::-1], 1e-4, feats, scale=m, detail=dict(det, index=i))
             first = v[np.argmax(np.abs(v) > 1e-6 * m)]
             c.require('dpss:odd-index-starts-with-positive-lobe', bool(first > 0), dict(det, index=i, first=float(first)), feats)
     if k is None:
@@ -130,19 +130,6 @@ def cases(c):
     rng = c.rng('cases')
     out = []
     quick = c.tier == 'quick'
-    for N in (range(8, 41, 1) if quick else range(8, 65)):
-        for NW in NWS:
-            if NW >= N / 2.0:
-                continue
-            ks = sorted(set([1, int(2 * NW)])) + [None]
-            if quick and N > 16:
-                ks = [gen.pick(rng, ks)]
-            for k in ks:
-                out.append({'lane': 'behaviour', 'N': N, 'NW': NW, 'k': k, 'directed': N in (8, 9)})
-    for i in range(40 if quick else 1500):
-        N = int(rng.integers(41, (1025 if quick else 4097) if i % 5 == 0 else 300))
-        NW = float(gen.pick(rng, NWS))
-        out.append({'lane': 'behaviour', 'N': N, 'NW': NW, 'k': gen.pick(rng, [1, int(rng.integers(1, int(2 * NW) + 1)), None]), 'i': i})
     # memory lanes (each batch is one case)
     nb = 1 if quick else 16
     for b in range(nb):
@@ -161,6 +148,19 @@ def cases(c):
         out.append({'lane': 'asan-inproc', 'batch': b, 'cases': inproc, 'directed': True})
         if not quick:
             out.append({'lane': 'valgrind', 'batch': b, 'triples': tri[:120], 'directed': True})
+    for N in (range(8, 41, 1) if quick else range(8, 65)):
+        for NW in NWS:
+            if NW >= N / 2.0:
+                continue
+            ks = sorted(set([1, int(2 * NW)])) + [None]
+            if quick and N > 16:
+                ks = [gen.pick(rng, ks)]
+            for k in ks:
+                out.append({'lane': 'behaviour', 'N': N, 'NW': NW, 'k': k, 'directed': N in (8, 9)})
+    for i in range(40 if quick else 1500):
+        N = int(rng.integers(41, (1025 if quick else 4097) if i % 5 == 0 else 300))
+        NW = float(gen.pick(rng, NWS))
+        out.append({'lane': 'behaviour', 'N': N, 'NW': NW, 'k': gen.pick(rng, [1, int(rng.integers(1, int(2 * NW) + 1)), None]), 'i': i})
     return out
 
 
@@ -187,9 +187,9 @@ def run_case(c, d):
         base = native.run_driver('plain', tri)
         if base['returncode'] != 0 or len(base['rows']) != len(tri):
             c.fail('native:plain-driver-completes', {'returncode': base['returncode'], 'rows': len(base['rows']),
-                                                     'expected': len(tri), 'stderr': base['report'][-400:]},
+                                                     'expected': len(tri), 'stderr': base['report'][-400:],
+                                                     'first_unfinished_triple': tri[len(base['rows'])] if len(base['rows']) < len(tri) else None},
                    {'lane': 'plain-driver'})
-            return
         r = native.run_driver(kind, tri)
         if r.get('timeout'):
             c.flag_inconclusive('%s lane timed out' % lane)
